@@ -273,6 +273,15 @@ class ExprNorm(ast.NodeTransformer):
         if len(vals) == 1:
             return vals[0]
         node.values = vals
+        # x != a and x != b  ->  x not in (a, b) ;  x == a or x == b  ->  x in (a, b)
+        want = ast.NotEq if isinstance(node.op, ast.And) else ast.Eq
+        if len(vals) >= 2 and all(
+                isinstance(v, ast.Compare) and len(v.ops) == 1 and isinstance(v.ops[0], want) and
+                is_simple(v.left) and is_simple(v.comparators[0]) for v in vals) and \
+                len({ast.dump(v.left) for v in vals}) == 1:
+            op = ast.NotIn() if want is ast.NotEq else ast.In()
+            return _loc(ast.Compare(left=vals[0].left, ops=[op], comparators=[
+                ast.Tuple(elts=[v.comparators[0] for v in vals], ctx=ast.Load())]), node)
         return node
 
     def visit_IfExp(self, node):
@@ -628,8 +637,12 @@ class StmtNorm(object):
                     isinstance(s.iter, (ast.Tuple, ast.List)) and 0 < len(s.iter.elts) <= 8 and \
                     all(isinstance(e, (ast.Tuple, ast.List, ast.Constant, ast.Name, ast.Attribute))
                         for e in s.iter.elts) and \
-                    not any(isinstance(n, (ast.Break, ast.Continue, ast.Yield, ast.YieldFrom,
-                                           ast.Await, ast.FunctionDef, ast.Lambda))
+                    not any(isinstance(n, (ast.Break, ast.Continue, ast.YieldFrom,
+                                           ast.Await, ast.FunctionDef, ast.Lambda)) or
+                            # a data generator's `yield a, b` is fine; a coroutine's
+                            # `yield something()` is a suspension point and stays in its loop
+                            (isinstance(n, ast.Yield) and not isinstance(
+                                n.value, (ast.Tuple, ast.Name, ast.Constant, ast.Attribute)))
                             for b in s.body for n in ast.walk(b)) and \
                     sum(1 for b in s.body for _ in ast.walk(b)) <= 40:
                 tnames = {n.id for n in ast.walk(s.target) if isinstance(n, ast.Name)}
@@ -679,8 +692,33 @@ class StmtNorm(object):
                 out.append(s)
         return out
 
+    def updates_as_stores(self, stmts):
+        """d.update({'k': v}) / d.update(k=v) as a statement is d['k'] = v"""
+        out = []
+        for s in stmts:
+            if isinstance(s, ast.Expr) and isinstance(s.value, ast.Call) and \
+                    isinstance(s.value.func, ast.Attribute) and s.value.func.attr == 'update' and \
+                    is_simple(s.value.func.value):
+                c = s.value
+                pairs = None
+                if len(c.args) == 1 and not c.keywords and isinstance(c.args[0], ast.Dict) and \
+                        c.args[0].keys and all(isinstance(k, ast.Constant) for k in c.args[0].keys):
+                    pairs = list(zip(c.args[0].keys, c.args[0].values))
+                elif not c.args and c.keywords and all(k.arg for k in c.keywords):
+                    pairs = [(ast.Constant(value=k.arg), k.value) for k in c.keywords]
+                if pairs and len(pairs) <= 3:
+                    self.bump('update-as-stores')
+                    for k, v in pairs:
+                        out.append(_loc(ast.Assign(targets=[ast.Subscript(
+                            value=copy.deepcopy(c.func.value), slice=k, ctx=ast.Store())],
+                            value=v), s))
+                    continue
+            out.append(s)
+        return out
+
     def block(self, stmts, loop_tail, func_tail):
         stmts = self.fold_literal_tests(stmts)
+        stmts = self.updates_as_stores(stmts)
         stmts = self.split_tuple_assign(stmts)
         stmts = self.fold_known_tests(stmts)
         stmts = self.unroll_constant_loops(stmts)
@@ -882,6 +920,23 @@ class StmtNorm(object):
                     out.append(st)
                     changed[0] = True
                     self.bump('return-temp-forwarded')
+                    continue
+                # (4) x = E; f(x, ..)  ->  f(E, ..)   x used nowhere else and evaluated first
+                if isinstance(prev, ast.Assign) and len(prev.targets) == 1 and \
+                        isinstance(prev.targets[0], ast.Name) and once(prev.targets[0].id) and \
+                        isinstance(st, (ast.Expr, ast.Assign, ast.Return)) and \
+                        isinstance(getattr(st, 'value', None), ast.Call) and \
+                        is_simple(st.value.func) and st.value.args and \
+                        isinstance(st.value.args[0], ast.Name) and \
+                        st.value.args[0].id == prev.targets[0].id and \
+                        not (isinstance(st, ast.Assign) and any(
+                            isinstance(n_, ast.Name) and n_.id == prev.targets[0].id
+                            for t_ in st.targets for n_ in ast.walk(t_))):
+                    st.value.args[0] = prev.value
+                    out.pop()
+                    out.append(st)
+                    changed[0] = True
+                    self.bump('temp-forwarded-to-call')
                     continue
                 # (2') x = E; T = x  ->  T = E   for any target T, x used nowhere else
                 if isinstance(st, ast.Assign) and len(st.targets) == 1 and \
@@ -1216,6 +1271,34 @@ class StmtNorm(object):
                 isinstance(s.value, ast.Constant) and s.value.value is None:
             s.value = None
             return s
+        if isinstance(s, ast.Assign) and len(s.targets) == 1 and isinstance(s.targets[0], ast.Name) \
+                and isinstance(s.value, ast.Call) and dotted(s.value.func) == 'sorted' and \
+                len(s.value.args) == 1 and isinstance(s.value.args[0], ast.Name) and \
+                s.value.args[0].id == s.targets[0].id:
+            # L = sorted(L, key=..) is L.sort(key=..) for a local list
+            self.bump('sorted-rebind-as-sort')
+            return _loc(ast.Expr(value=ast.Call(
+                func=ast.Attribute(value=ast.Name(id=s.targets[0].id, ctx=ast.Load()), attr='sort',
+                                   ctx=ast.Load()), args=[], keywords=s.value.keywords)), s)
+        if isinstance(s, ast.Assign) and len(s.targets) == 1 and isinstance(s.targets[0], ast.Name) \
+                and isinstance(s.value, ast.BinOp) and isinstance(s.value.op, ast.Add) and \
+                isinstance(s.value.left, ast.Name) and s.value.left.id == s.targets[0].id and \
+                isinstance(s.value.right, ast.List) and len(s.value.right.elts) == 1 and \
+                not isinstance(s.value.right.elts[0], ast.Starred):
+            # X = X + [e] is X.append(e) for a local list
+            self.bump('concat-as-append')
+            return _loc(ast.Expr(value=ast.Call(
+                func=ast.Attribute(value=ast.Name(id=s.targets[0].id, ctx=ast.Load()),
+                                   attr='append', ctx=ast.Load()),
+                args=[s.value.right.elts[0]], keywords=[])), s)
+        if isinstance(s, ast.AugAssign) and isinstance(s.op, ast.Add) and \
+                isinstance(s.target, ast.Name) and isinstance(s.value, ast.List) and \
+                len(s.value.elts) == 1 and not isinstance(s.value.elts[0], ast.Starred):
+            self.bump('concat-as-append')
+            return _loc(ast.Expr(value=ast.Call(
+                func=ast.Attribute(value=ast.Name(id=s.target.id, ctx=ast.Load()),
+                                   attr='append', ctx=ast.Load()),
+                args=[s.value.elts[0]], keywords=[])), s)
         if isinstance(s, ast.Expr) and isinstance(s.value, ast.Call) and \
                 dotted(s.value.func) == 'setattr' and len(s.value.args) == 3 and \
                 not s.value.keywords and isinstance(s.value.args[1], ast.Constant) and \
